@@ -61,6 +61,10 @@ class RefErr(Exception):
     """the reference semantics gives no value (division by zero, negative shift, undefined identifier in an operation)"""
 
 
+class StrOp(RefErr):
+    """an operation on a str operand (undefined identifier / string option): outside the modelled domain"""
+
+
 class Huge(Exception):
     """shift count beyond what is evaluated (MemoryError/OverflowError territory): case is skipped"""
 
@@ -103,7 +107,7 @@ def ref_eval(a, env):
 
     def need(v):
         if not isinstance(v, int):
-            raise RefErr("operation on a non-integer")
+            raise StrOp("operation on a non-integer")
         return v
     if k == "B":
         x = ref_eval(a[2], env)
@@ -283,6 +287,30 @@ def render(tokens, rng, plain=False):
         out.append(piece)
         prev_kind = kind
     return "".join(out)
+
+
+def render_plain_tokens(a, drv):
+    """tokens of a syntax tree as plain texts (decimal / hexadecimal numbers), for the mutation stream"""
+    ans = drv.ask("A ; " + " ".join(wire(a)))
+    parts = ans.split(" | ")
+    if len(parts) != 4:
+        return None
+    out = []
+    for t in parts[0].split(" "):
+        k, body = t[0], t[1:]
+        if k == "n":
+            out.append(hex(int(body)) if int(body) > 9 else body)
+        elif k == "z":
+            if not out or out[-1] != ".":
+                return None
+            out[-1] = "." + body
+        elif k == "D":
+            out.append("defined")
+        elif k in "ioc":
+            out.append(body)
+        else:
+            out.append(k)
+    return out
 
 
 def _num_value(txt):
@@ -472,6 +500,8 @@ class Real:
         from spsdk.utils.crypto.otfad import KeyBlob
         from spsdk.utils.misc import align_block
         kb = KeyBlob(start_addr=st, end_addr=en, key=bytes.fromhex(key), counter_iv=bytes.fromhex(ctr))
+        if not (0 <= addr <= 0xFFFFFFFF):
+            raise ValueError("address")
         if kind == "keywrap":
             data = kb.export(kek=inp)
             return "load:%d:0:keywrap[%d]" % (addr, len(data))
@@ -774,7 +804,7 @@ def stmt_ref(s, ev, ctx):
     if k == "keywrap":
         i, a = val(s["id"]), val(s["addr"])
         c = kb(i) if i is not None else None
-        if c is None or a is None:
+        if c is None or not is_addr(a):
             return None
         return "crypto:keywrap:%d:%d:%d:%s:%s:%s" % (a, c["start"], c["end"], c["key"].lower(), c["counter"].lower(), s["blob"].lower() or "")
     if k == "encrypt":
@@ -785,7 +815,7 @@ def stmt_ref(s, ev, ctx):
         a = val(t[1])
         bs = file_of(s["data"])
         c = kb(i) if i is not None else None
-        if c is None or a is None or bs is None:
+        if c is None or not is_addr(a) or bs is None:
             return None
         return "crypto:encrypt:%d:%d:%d:%s:%s:%s" % (a, c["start"], c["end"], c["key"].lower(), c["counter"].lower(), bs.hex())
     return None  # call, reset, unsupported constructs
@@ -930,7 +960,7 @@ def expr_streams(ck, real, drv, rng):
     s = ck.stream("expr_random", "random bool_expr / expr syntax trees (depth <= 5: + - * / % << >> & | ^, unary +-, int-size suffixes, "
                   "comparisons, && || !, defined(), constants referring to earlier constants), printed with minimal parentheses by the proved "
                   "printer, rendered with random number formats (dec/hex/K/'c'/yes/no), spacing and comments; non-trivial = value (not error)")
-    n = ck.budget(4000, 120000)
+    n = ck.budget(8000, 120000)
     consts = [("a", 10), ("zz", 3), ("c0de", 0x1234), ("big", 0x1_0000_0001), ("ab", 7), ("f", 0)]
     # constants referring to earlier constants: the prelude is itself part of what is evaluated
     pre = "a = 10; zz = a - 7; c0de = 0x1200 + 0x34; big = 1 << 32 | 1; ab = zz * 2 + 1; f = ab - 7;"
@@ -983,6 +1013,59 @@ def expr_streams(ck, real, drv, rng):
             s.expect(gots[j] == want, {"text": t, "pre": pre, "ast": repr(a)},
                      "a BD constant expression does not evaluate to the value the language semantics prescribes", gots[j], want)
 
+    # ------------------------------------------------------------------ one-token mutations of valid expressions
+    s = ck.stream("expr_mutated", "valid printed expressions with ONE token deleted, duplicated, replaced or two swapped: accept/reject "
+                  "boundary and value, implementation vs model, and vs the reference value of the tree the reference parser builds; "
+                  "non-trivial = accepted")
+    pool = ["+", "-", "*", "/", "%", "<<", ">>", "&", "|", "^", "(", ")", "<", "<=", "==", "!=", "&&", "||", "!", "1", "0x10", "a", "zz",
+            ".b", "~", "defined(a)"]
+    muts = []
+    for a in asts[: ck.budget(3000, 60000)]:
+        ans_toks = None
+        try:
+            ans_toks = render_plain_tokens(a, drv)
+        except Exception:  # noqa: BLE001
+            ans_toks = None
+        if not ans_toks:
+            continue
+        t = list(ans_toks)
+        k = rng.randrange(4)
+        i = rng.randrange(len(t))
+        if k == 0 and len(t) > 1:
+            del t[i]
+        elif k == 1:
+            t.insert(i, t[i])
+        elif k == 2:
+            t[i] = rng.choice(pool)
+        else:
+            j = rng.randrange(len(t))
+            t[i], t[j] = t[j], t[i]
+        muts.append(" ".join(t).replace(" .b", ".b").replace(" .h", ".h").replace(" .w", ".w"))
+    parsed = drv.batch(["T " + hx(t) for t in muts])
+    safe = []
+    for t, pw in zip(muts, parsed):
+        if pw != "E":
+            try:
+                ref_eval(unwire(pw.split(" ")), env)
+            except Huge:
+                s.note(t, nontrivial=False, cls="huge-shift-skipped")
+                continue
+            except StrOp:
+                s.note(t, nontrivial=False, cls="operation-on-str-skipped")
+                continue
+            except RefErr:
+                pass
+        safe.append((t, pw))
+    models = drv.batch(["X c %s %s" % (hx(t), varspec) for t, _pw in safe])
+    for (t, pw), m in zip(safe, models):
+        g = real.value(t, pre)
+        s.note(t, nontrivial=g != "E", cls="accepted" if g != "E" else "refused")
+        s.compare({"text": t, "pre": pre}, g, m)
+        if pw != "E":
+            w = ref_canon(unwire(pw.split(" ")), env)
+            s.expect(g == w, {"text": t, "pre": pre, "parsed_as": pw}, "an accepted expression does not evaluate to the arithmetic value of its "
+                     "syntax tree (tree as parsed by the reference parser)", g, w)
+
     # ------------------------------------------------------------------ token soup (mostly malformed)
     s = ck.stream("expr_tokens", "random token sequences (1..10 tokens from operands, operators, parentheses, suffixes, keywords): "
                   "accept/reject and value of the implementation vs the model; non-trivial = accepted")
@@ -1005,10 +1088,15 @@ def expr_streams(ck, real, drv, rng):
     for t, pw in zip(texts, parsed):
         if pw != "E":
             try:
-                ref_canon(unwire(pw.split(" ")), env)
+                ref_eval(unwire(pw.split(" ")), env)
             except Huge:
                 s.note(t, nontrivial=False, cls="huge-shift-skipped")
                 continue
+            except StrOp:
+                s.note(t, nontrivial=False, cls="operation-on-str-skipped")
+                continue
+            except RefErr:
+                pass
         safe.append((t, pw))
     models = drv.batch(["X c %s %s" % (hx(t), varspec) for t, _pw in safe])
     for (t, pw), m in zip(safe, models):
@@ -1115,7 +1203,7 @@ def program_streams(ck, real, drv, rng):
     su = ck.stream("unsupported", "programs with one unsupported construct (if/else, mode, info/warning/error, from, '> .', section lists, "
                    "sizeof, symbol references, source attributes, '<= source', '~') anywhere: must be refused by BDParser.parse and by "
                    "parse_sb21_config/load_from_config; non-trivial = distinct text")
-    n = ck.budget(700, 20000)
+    n = ck.budget(1300, 20000)
     for it in range(n):
         unsup = rng.random() < 0.12
         prog = gen_program(rng, real, drv, unsup)
@@ -1139,9 +1227,15 @@ def program_streams(ck, real, drv, rng):
             st.expect(gotc == "E", inp, "an unsupported construct is not refused by parse_sb21_config/load_from_config", gotc, "E")
             continue
         # configuration oracle: options / keyblobs / sources resolve to their definitions, one dictionary per statement
-        if ref["config"] is not None:
-            st.expect(gotcfg == ref["config"], inp, "the configuration is not what the definitions say (options, constants, sources, "
-                      "key blobs resolve to their definitions; one command dictionary per statement)", gotcfg, ref["config"])
+        if ref["config"] is not None and gotcfg != "E" and not gotcfg.startswith("E:"):
+            f = gotcfg.split(" ")
+            import re as _re
+            head = " ".join(f[:3]) + " sections:" + ",".join(_re.findall(r"(?:(?<=\[)|(?<=\|))([is][^:]*):\(", f[3])) if len(f) == 4 else gotcfg
+            st.expect(head == ref["config"], inp, "the configuration is not what the definitions say (options, sources, key blobs and "
+                      "section ids resolve to their definitions)", head, ref["config"])
+            ncmd = [len([c for c in sec.split(";") if c]) for sec in _re.findall(r":\(([^)]*)\)", f[3])] if len(f) == 4 else []
+            st.expect(ncmd == [len(sec) for sec in prog["sections"]], inp, "the parser does not deliver one command dictionary per statement",
+                      ncmd, [len(sec) for sec in prog["sections"]])
         gotc, hdr = real.load(text, extern)
         st.expect(gotc != "HANG", inp, "load_from_config does not terminate on this program (an unsupported operand must be refused with an error)",
                   gotc, "a result or an error")
@@ -1219,7 +1313,7 @@ def mask_keywrap(got, want):
             return got
         row = []
         for a, b in zip(gc, wc):
-            if b.startswith("load:") and ":keywrap[" in b and a.startswith("load:"):
+            if b.startswith("load:") and ":keywrap[" in b and a.startswith("load:") and ":keywrap[" not in a:
                 p = a.split(":")
                 row.append("load:%s:%s:keywrap[%d]" % (p[1], p[2], 0 if p[3] == "-" else len(p[3]) // 2))
             else:
@@ -1635,16 +1729,15 @@ def gen_program(rng, real, drv, unsup):
     flags = header["flags"] if header["flags"] is not None else 0x8 | 0x8000
     hdr = (flags, bcd(header["productVersion"]), bcd(header["componentVersion"]), header["buildNumber"])
     only_blob_refusal = long_blob
+    # reference configuration head: options, key blobs and sources resolve to their definitions
+    ref_head = (("O" + dict_canon(cfg_opts)) if cfg_opts is not None else "O-") + " K[" + ";".join(
+        dval_canon(kid) + dict_canon(c) for kid, c in cfg_kbs) + "] " + (("S" + dict_canon(sources)) if have_sources else "S-")
+    ref_head += " sections:" + ",".join(dval_canon(x) for x in sec_cfg)
     return {"text": text, "wire": wirereq, "extern": extern, "sections": sections, "kinds": kinds_used, "unsup_kind": unsup_kind,
-            "ref": {"config": None, "cmds": ref_cmds, "header": hdr}, "only_blob_refusal": only_blob_refusal}
+            "ref": {"config": ref_head, "cmds": ref_cmds, "header": hdr}, "only_blob_refusal": only_blob_refusal}
 
 
 def bcd(v):
-    parts = v.split(".")
-    return ".".join(str(int(p)) if p.isdigit() else p for p in parts) if False else _bcd_str(v)
-
-
-def _bcd_str(v):
     # BcdVersion3 prints each component as its hexadecimal BCD digits without leading zeros
     return ".".join("%X" % int(p, 16) for p in v.split("."))
 
